@@ -145,8 +145,7 @@ func runC18(r *Report) {
 	}
 	emptyChallenge := func(f *ssa.Function) []*ssa.BasicBlock {
 		var out []*ssa.BasicBlock
-		for _, c := range Calls(f, false, "GetPendingChallenge") {
-			v := c.(ssa.Value)
+		for v := range pendingChallengeValues(f) {
 			for _, b := range f.Blocks {
 				if len(b.Instrs) == 0 {
 					continue
